@@ -1,5 +1,6 @@
 import Driver.Proto
 import Gotree.Spec.C15
+import Gotree.Lemmas.C15HeapEdits
 
 namespace Gotree.Driver.C15
 open Gotree Gotree.Driver Gotree.C15
@@ -23,6 +24,42 @@ def tie (tags : List String) (model after : T) : Verdict :=
   if obsEq model after then ⟨.pass, tagIf (model == after) "exact" ++ tags, ""⟩
   else ⟨.tie, tags, "model " ++ model.dump⟩
 
+/-- "root[,root];id:data=p.p.p;id:data=…" → (roots, cells with their hashed content) -/
+def parseHeapM (s : String) : Option (List Nat × List (Nat × Nat × List Nat)) :=
+  match splitTerm ";" s with
+  | [] => none
+  | r :: cs =>
+    match (r.splitOn ",").mapM (·.toNat?), cs.mapM (fun c => match c.splitOn "=" with
+        | [idd, ps] =>
+          match idd.splitOn ":" with
+          | [i, d] => match i.toNat?, d.toNat?, (if ps == "" then some [] else (ps.splitOn ".").mapM (·.toNat?)) with
+            | some i, some d, some l => some (i, d, l)
+            | _, _, _ => none
+          | _ => none
+        | _ => none) with
+    | some roots, some cells => some (roots, cells)
+    | _, _ => none
+
+def parseHeap (s : String) : Option (Nat × List (Nat × Nat × List Nat)) :=
+  match parseHeapM s with
+  | some ([r], cells) => some (r, cells)
+  | _ => none
+
+/- child-index path of the first (pre-order) non-root leaf with the given name -/
+mutual
+def findLeaf (name : String) : T → Option (List Nat)
+  | .node _ _ k => findLeafL name k 0
+def findLeafL (name : String) : Kids → Nat → Option (List Nat)
+  | [], _ => none
+  | (_, t) :: r, i =>
+    if t.isLeaf && t.name == name then some [i]
+    else match findLeaf name t with
+      | some p => some (i :: p)
+      | none => findLeafL name r (i + 1)
+end
+
+def shapeOnly (cells : List (Nat × Nat × List Nat)) : List (Nat × List Nat) := cells.map fun c => (c.1, c.2.2)
+
 def panicked (o : String) : Bool := o.startsWith "panic"
 
 /-- the tip index answers for exactly the tips of the tree (each by the node that carries the name) -/
@@ -36,6 +73,25 @@ def indexOK (ia : String) (after : T) : Bool :=
 def bitsOK (ia : String) : Bool :=
   match ia.splitOn "|" with
   | [_, st] => st == "ok"
+  | [_, st, _] => st == "ok" || st == ""
+  | _ => true
+
+def showBits (b : List Bool) : String := String.ofList (b.map fun x => if x then '1' else '0')
+
+/-- the derived state the harness read (tip names by tip id / bitset of every branch in `Edges()`
+    order) against the model's `tipIndex` and `bitsets` of the same tree -/
+def derivedPartOK (part : String) (after : T) (withBits : Bool) : Bool :=
+  if part == "" then true else
+  match part.splitOn "/" with
+  | [ns, bs] =>
+    match parseStrList ns, parseStrList bs with
+    | some names, some bits => names == (tipIndex after).1 && (!withBits || bits == (bitsets after).map showBits)
+    | _, _ => false
+  | _ => false
+
+def derivedOK (ia : String) (after : T) (withBits : Bool) : Bool :=
+  match ia.splitOn "|" with
+  | [_, _, part] => derivedPartOK part after withBits
   | _ => true
 
 def handleCore (cli : Bool) (op : String) (f : List String) : Verdict :=
@@ -57,6 +113,7 @@ def handleCore (cli : Bool) (op : String) (f : List String) : Verdict :=
           else if !valid then ⟨.pass, "skip-dupnames" :: tags, ""⟩
           else if !(graftOK t tip g after) then ⟨.oracle, tags, "graft: tips or distances of pre-existing tips changed"⟩
           else if !(indexOK ia after) then ⟨.oracle, tags, "graft: the tip index does not answer for exactly the tips: " ++ ia⟩
+          else if !(derivedOK ia after false) then ⟨.tie, tags, "graft: tip ids differ from the model's UpdateTipIndex: " ++ ia⟩
           else match m with
             | .ok mt => tie ("nontrivial" :: "ok" :: tags) mt after
             | .error e => ⟨.tie, tags, "model rejects: " ++ e⟩
@@ -85,6 +142,7 @@ def handleCore (cli : Bool) (op : String) (f : List String) : Verdict :=
           else match m with
             | .ok mt =>
               if !(bitsOK ia) then ⟨.tie, tags, "merge: the branch bitsets were not refreshed (ReinitIndexes): " ++ ia⟩
+              else if !(derivedOK ia after true) then ⟨.tie, tags, "merge: tip ids / bitsets differ from the model's ReinitIndexes: " ++ ia⟩
               else tie ("nontrivial" :: "ok" :: tags) mt after
             | .error e => ⟨.tie, tags, "model rejects: " ++ e⟩
       else match m with
@@ -107,11 +165,20 @@ def handleCore (cli : Bool) (op : String) (f : List String) : Verdict :=
         | none => bad "C15.insid after dump"
         | some after =>
           if wf != "" then ⟨.oracle, tags, "malformed heap after InsertIdenticalTips: " ++ wf⟩
-          else if !valid then ⟨.pass, "skip-dupnames" :: tags, ""⟩
+          else if !t.uniqueTips then ⟨.pass, "skip-dupnames" :: tags, ""⟩
+          else if !valid then
+            -- an empty name among the tips or in a group: outside the theorems' hypotheses (the code
+            -- uses "" as "no existing tip yet"); the model must still do what the code does
+            (match outcome == "ok", merr with
+             | true, none => tie ("empty-name" :: tags) mt after
+             | false, some _ => tie ("empty-name" :: "rejected" :: tags) mt after
+             | true, some e => ⟨.tie, "empty-name" :: tags, "model rejects: " ++ e⟩
+             | false, none => ⟨.tie, "empty-name" :: tags, "model accepts, implementation fails"⟩)
           else if outcome == "ok" then
             if !(insertOK t groups after) then ⟨.oracle, tags, "insert identical: tips, distances of pre-existing tips, or distance 0 to the model"⟩
             else if !(indexOK ia after) then ⟨.oracle, tags, "insert identical: the tip index does not answer for exactly the tips: " ++ ia⟩
             else if !(bitsOK ia) then ⟨.tie, tags, "insert identical: the branch bitsets were not refreshed (ReinitIndexes): " ++ ia⟩
+            else if !(derivedOK ia after true) then ⟨.tie, tags, "insert identical: tip ids / bitsets differ from the model's ReinitIndexes: " ++ ia⟩
             else match merr with
               | none => tie (tagIf (after != t) "nontrivial" ++ "ok" :: tags) mt after
               | some e => ⟨.tie, tags, "model rejects: " ++ e⟩
@@ -122,7 +189,7 @@ def handleCore (cli : Bool) (op : String) (f : List String) : Verdict :=
               else tie ("rejected" :: tags) mt after
             | none => ⟨.tie, tags, "model accepts, implementation fails"⟩
     | _, _ => bad "C15.insid fields"
-  | "rmsingle", [idx, dT, outcome, dA, wf] =>
+  | "rmsingle", [idx, dT, outcome, dA, wf, dd] =>
     match T.undump dT with
     | some t =>
       let valid := t.uniqueTips && lengthsOK t
@@ -135,6 +202,8 @@ def handleCore (cli : Bool) (op : String) (f : List String) : Verdict :=
           if wf != "" then ⟨.oracle, tags, "malformed heap after RemoveSingleNodes: " ++ wf⟩
           else if !valid then ⟨.pass, "skip-dupnames" :: tags, ""⟩
           else if !(removeSingleOK t after) then ⟨.oracle, tags, "remove single nodes: tips, distances, or a single-child node left"⟩
+          else if !(derivedPartOK dd after true) then
+            ⟨.tie, tags, "remove single nodes: tip ids / bitsets differ from the model's ReinitInternalIndexes: " ++ dd⟩
           else if !cli && (removeSingle t).usplits != after.usplits then
             -- beyond obs_C15 (DESIGN §4.2): length and support per unrooted split of the fused branches
             -- (not in the CLI tier: Newick cannot carry the support of a branch above a named node or a tip)
@@ -157,8 +226,9 @@ def handleCore (cli : Bool) (op : String) (f : List String) : Verdict :=
             ⟨.tie, tags, "table (d) says a reference field is shared, no shared cell was observed"⟩
           else if !valid then ⟨.pass, "skip-dupnames" :: tags, ""⟩
           else if !(subTreeOK t n sub) then ⟨.oracle, tags, "subtree: tips or distances differ from the source"⟩
-          else if !(indexOK ia sub) then ⟨.oracle, tags, "subtree: the tip index does not answer for exactly the tips: " ++ ia⟩
-          else if !(bitsOK ia) then ⟨.tie, tags, "subtree: the branch bitsets do not describe the subtree (ReinitIndexes): " ++ ia⟩
+          else if sub.uniqueTips && !(indexOK ia sub) then ⟨.oracle, tags, "subtree: the tip index does not answer for exactly the tips: " ++ ia⟩
+          else if sub.uniqueTips && !(bitsOK ia) then ⟨.tie, tags, "subtree: the branch bitsets do not describe the subtree (ReinitIndexes): " ++ ia⟩
+          else if sub.uniqueTips && !(derivedOK ia sub true) then ⟨.tie, tags, "subtree: tip ids / bitsets differ from the model's ReinitIndexes: " ++ ia⟩
           else tie (tagIf (!n.isLeaf) "nontrivial" ++ tags) m sub
         | _, _, _ => bad "C15.subtree dump/path"
     | _, _ => bad "C15.subtree fields"
@@ -179,6 +249,7 @@ def handleCore (cli : Bool) (op : String) (f : List String) : Verdict :=
           else if idsT != idsC then ⟨.oracle, tags, "node ids of the clone differ"⟩
           else if t.uniqueTips && !(indexOK ia c) then ⟨.oracle, tags, "clone: the tip index does not answer for exactly the tips: " ++ ia⟩
           else if t.uniqueTips && !(bitsOK ia) then ⟨.tie, tags, "clone: the copied branch bitsets do not describe the clone: " ++ ia⟩
+          else if t.uniqueTips && !(derivedOK ia c true) then ⟨.tie, tags, "clone: tip ids / copied bitsets differ from the model: " ++ ia⟩
           else if clone t == c then ⟨.pass, "exact" :: "nontrivial" :: tags, ""⟩
           else if obsEq (clone t) c then ⟨.pass, "nontrivial" :: tags, ""⟩
           else ⟨.tie, tags, "model clone " ++ (clone t).dump⟩
@@ -229,6 +300,143 @@ def handleCore (cli : Bool) (op : String) (f : List String) : Verdict :=
       else if !start then ⟨.tie, tags, "the copy is not the model's copy at the start of the history"⟩
       else ⟨.pass, tags, ""⟩
     | _, _, _ => bad "C15.hist fields"
+  | "heap", [kind, dT, pathS, outcome, before, after] =>
+    -- the heap model of Clone / SubTree (Lemmas/C15HeapCopy.lean: `cloneOpsAt` driven by the regenerated
+    -- table) is RUN on the pointer graph of the real source, and the structure it builds is compared,
+    -- up to renaming of cells, with the pointer graph of the real copy
+    match T.undump dT, parseNatList pathS, parseHeap before with
+    | some t, some path, some (root, cells) =>
+      let tags := ["heap-" ++ kind] ++ tagIf (hasComments t) "comments" ++ tagIf (!allPposZero t) "ppos-nonzero"
+      if panicked outcome then ⟨.oracle, tags, kind ++ " panicked: " ++ outcome⟩ else
+      match parseHeap after, Heap.heapPath t path [0] true with
+      | some (croot, ccells), some (sp, n, isRoot) =>
+        -- the Tree struct of the source: one more cell, whose first reference is the root node
+        let base := (Heap.ofCellsD cells).next + 1
+        let h0 : Heap.H := Heap.ofCellsD ((base, 0, [root, base - 1]) :: (base - 1, 0, []) :: cells)   -- Tree [root, tip index]
+        let src := base
+        let h1 := Heap.exec src h0.next (Heap.cloneOpsAt Gotree.Gen.C15.fields n sp isRoot) h0
+        -- the path must lead, in the real source, to a node cell (3 reference fields)
+        let okPath := match Heap.follow h0 src sp with
+          | some a => (h0.ptrs a).length == 3
+          | none => false
+        if !okPath then ⟨.tie, tags, "heap path of the node does not resolve in the pointer graph of the source"⟩
+        else if !(Heap.isoFromD h1 h0.next ccells croot) then
+          ⟨.tie, tags, "the heap model of the copy differs (shape or copied content) from the pointer graph of the real copy"⟩
+        else ⟨.pass, "nontrivial" :: tags, ""⟩
+      | _, _ => bad "C15.heap dump/path"
+    | _, _, _ => bad "C15.heap fields"
+  | "heapedit", ["reroot", dT, pathS, outcome, before, after] =>
+    -- the heap program of Reroot (Lemmas/C15HeapEdits.lean: `rerootProgs` = Inverse on the branches of the
+    -- path, then t.root = n) run on the pointer graph of the real tree, against the graph after the real call
+    match T.undump dT, parseNatList pathS, parseHeap before, parseHeap after with
+    | some t, some path, some (root, cells), some (aroot, acells) =>
+      let tags := ["heapedit-reroot"] ++ tagIf (!allPposZero t) "ppos-nonzero" ++ tagIf path.isEmpty "at-root"
+      if panicked outcome then ⟨.pass, "skip-panic" :: tags, ""⟩
+      else if outcome != "ok" then ⟨.pass, "rejected" :: tags, ""⟩
+      else match Heap.heapPath t path [0] true with
+        | none => bad "C15.heapedit path"
+        | some (sp, _, _) =>
+          -- sp = [0, 1, s1, 1, s2, …]: keep the slots
+          let rec slotsOf : List Nat → List Nat
+            | 1 :: s :: r => s :: slotsOf r
+            | _ => []
+          let slots := slotsOf (sp.drop 1)
+          let base := (Heap.ofCellsD cells).next + 1
+          let h0 : Heap.H := Heap.ofCellsD ((base, 0, [root, base - 1]) :: (base - 1, 0, []) :: cells)   -- Tree [root, tip index]
+          let h1 := Heap.run ((Heap.rerootProgs slots).map (Heap.runProg base)) h0
+          let abase := (Heap.ofCellsD acells).next + 1
+          if Heap.isoFromD h1 base ((abase, 0, [aroot, abase - 1]) :: (abase - 1, 0, []) :: acells) abase then ⟨.pass, tagIf (!path.isEmpty) "nontrivial" ++ tags, ""⟩
+          else ⟨.tie, tags, "the heap program of Reroot yields another pointer graph than the real Reroot"⟩
+    | _, _, _, _ => bad "C15.heapedit fields"
+  | "heapedit", [hop, dT, argE, outcome, before, after, dT2] =>
+    -- GraftTreeOnTip / Merge / InsertIdenticalTip statement by statement as heap programs
+    -- (Lemmas/C15HeapEdits.lean), run on the real pointer graph, compared in shape with the real result
+    match T.undump dT, unescape argE, parseHeapM before, parseHeap after with
+    | some t, some arg, some (roots, cells), some (aroot, acells) =>
+      let tags := ["heapedit-" ++ hop] ++ tagIf (t.kids.length == 1) "roottip"
+      if outcome != "ok" then ⟨.pass, "rejected" :: tags, ""⟩ else
+      let cs := shapeOnly cells
+      let m := (Heap.ofCells cs).next
+      -- tip index and Tree struct of each tree, then the frame holding receiver and argument
+      let trees := roots.zipIdx.flatMap fun (r, i) => [(m + 2 * i, ([] : List Nat)), (m + 2 * i + 1, [r, m + 2 * i])]
+      let frame := m + 2 * roots.length
+      let h0 : Heap.H := Heap.ofCells ((frame, (List.range roots.length).map fun i => m + 2 * i + 1) :: trees ++ cs)
+      let acs := shapeOnly acells
+      let am := (Heap.ofCells acs).next
+      let check (prog : Heap.H → List Heap.Op) (extra : List String) : Verdict :=
+        let h1 := Heap.runProg frame prog h0
+        if Heap.isoFrom h1 (m + 1) ((am + 1, [aroot, am]) :: (am, []) :: acs) (am + 1) then ⟨.pass, "nontrivial" :: extra ++ tags, ""⟩
+        else ⟨.tie, extra ++ tags, "the heap program of " ++ hop ++ " yields another pointer graph than the real call"⟩
+      -- the tip's parent in the heap: path, number of neighbours, slot of the tip
+      let locate : Option (List Nat × Nat × Nat × EdgeD × Bool) :=
+        match findLeaf arg t with
+        | none => none
+        | some p =>
+          let q := p.dropLast
+          let i := p.getLastD 0
+          match Heap.heapPath t q [0, 0] true with
+          | some (parN, .node _ pp kids, isRoot) =>
+            (match kids[i]? with
+             | some (e, _) => some (parN, kids.length + (if isRoot then 0 else 1), Heap.slot isRoot pp i, e, isRoot && kids.length == 1)
+             | none => none)
+          | none => none
+      let checkL (progs : List (Heap.H → List Heap.Op)) (extra : List String) : Verdict :=
+        let h1 := Heap.run (progs.map (Heap.runProg frame)) h0
+        if Heap.isoFrom h1 (m + 1) ((am + 1, [aroot, am]) :: (am, []) :: acs) (am + 1) then
+          ⟨.pass, tagIf (!progs.isEmpty) "nontrivial" ++ extra ++ tags, ""⟩
+        else ⟨.tie, extra ++ tags, "the heap programs of " ++ hop ++ " yield another pointer graph than the real call"⟩
+      match hop with
+      | "rmsingle" => checkL (Heap.rsProgs t [0, 0] true) (tagIf (hasChain t) "single-chain" ++ tagIf (!allPposZero t) "ppos-nonzero")
+      | "merge" => check Heap.mergeProg []
+      | "graft" =>
+        (match locate, T.undump dT2 with
+         | some (parN, kn, idx, _, _), some g => check (Heap.graftProg parN kn idx [1, 0] g.kids.length) []
+         | _, _ => bad "C15.heapedit graft: tip not found")
+      | "insid" =>
+        (match locate with
+         | some (parN, kn, idx, e, lone) =>
+           if e.len == 0 && !lone then check (Heap.insertZeroProg parN kn) ["zero-branch"]
+           else check (Heap.insertCherryProg parN kn idx) ["cherry"]
+         | none => bad "C15.heapedit insid: tip not found")
+      | _ => bad ("C15.heapedit: " ++ hop)
+    | _, _, _, _ => bad "C15.heapedit fields"
+  | "glue", [cmd, a, b, c, outcome, out] =>
+    -- CLI glue (DESIGN §4.3): the command as a pure function of its inputs; `out` = α of the printed
+    -- tree re-read, "-" when nothing was printed
+    let got : Option T := if out == "-" then none else T.undump out
+    let cmp (tags : List String) (expect : Option T) (expOutcome : String) : Verdict :=
+      if outcome.startsWith "panic" then ⟨.oracle, tags, "gotree " ++ cmd ++ " crashed: " ++ outcome⟩
+      else if outcome != expOutcome then ⟨.tie, tags, "gotree " ++ cmd ++ ": exit " ++ outcome ++ ", model says " ++ expOutcome⟩
+      else match expect, got with
+        | none, none => ⟨.pass, "nontrivial" :: tags, ""⟩
+        | some m, some g => if obsEq m g then ⟨.pass, "nontrivial" :: tagIf (zeroPpos m == zeroPpos g) "exact" ++ tags, ""⟩
+                            else ⟨.tie, tags, "gotree " ++ cmd ++ " printed another tree than the model: " ++ m.dump⟩
+        | none, some _ => ⟨.tie, tags, "gotree " ++ cmd ++ " printed a tree, the model prints none"⟩
+        | some m, none => ⟨.tie, tags, "gotree " ++ cmd ++ " printed nothing, the model prints " ++ m.dump⟩
+    match cmd, T.undump a with
+    | "graft", some host =>
+      (match unescape b, T.undump c with
+       | some tip, some g =>
+         let refused := match graft true host tip g with | .ok _ => false | .error _ => true
+         cmp (["glue-graft"] ++ tagIf refused "graft-error-ignored") (some (cliGraft host tip g)) "ok"
+       | _, _ => bad "C15.glue graft fields")
+    | "merge", some t1 =>
+      (match T.undump b with
+       | some t2 => let e := cliMerge t1 t2
+                    cmp (["glue-merge"] ++ tagIf e.isNone "refused") e (if e.isSome then "ok" else "err")
+       | none => bad "C15.glue merge fields")
+    | "repopulate", some t =>
+      (match parseStrLists b with
+       | some gs => let e := cliRepopulate t gs
+                    cmp (["glue-repopulate"] ++ tagIf e.isNone "refused") e (if e.isSome then "ok" else "err")
+       | none => bad "C15.glue repopulate fields")
+    | "collapsesingle", some t => cmp ["glue-collapsesingle"] (some (cliCollapseSingle t)) "ok"
+    | "subtree", some t =>
+      (match unescape b with
+       | some name => let e := cliSubtree t name
+                      cmp (["glue-subtree", "matches-" ++ toString (nodesNamed t name).length] ++ tagIf e.isNone "nothing-printed") e "ok"
+       | none => bad "C15.glue subtree fields")
+    | _, _ => bad ("C15.glue: " ++ cmd)
   | _, _ => bad ("C15: unknown op " ++ op)
 
 /-- CLI-tier cases (DESIGN §4.3) carry one more field, `cli`: same oracle, same tie -/
